@@ -1,4 +1,96 @@
-import Gpc.Proofs.PFString
-namespace Gpc.PF
-theorem placeholder_c10 : True := trivial
-end Gpc.PF
+import Gpc.Proofs.Printf
+/-!
+# C10 — bounded formatting never writes past its limit and reports the full length
+
+`PF.*` are the checked-write models of the helpers of src/pfstring.h, src/printf.c and
+src/conversions.c: an operation answers `none` exactly when it would write outside the
+destination.  `Agrees p full` says: the destination holds the first `capacity` bytes of the
+unbounded output `full`, and `length` is the unbounded length.
+-/
+namespace Gpc.Printf
+open Gpc.PF (PF Agrees)
+
+/-- what `Agrees` means for the bytes one can observe -/
+theorem agrees_take (p : PF) (full : Bytes) (h : Agrees p full) :
+    p.length = full.length ∧ p.data.take (min full.length p.cap) = full.take p.cap := by
+  refine ⟨h.1, ?_⟩
+  apply List.ext_getElem?
+  intro i
+  simp only [List.getElem?_take]
+  by_cases hi : i < min full.length p.cap
+  · rw [if_pos hi, if_pos (by omega)]; exact h.2 i (by omega) (by omega)
+  · rw [if_neg hi]
+    by_cases hc : i < p.cap
+    · rw [if_pos hc]; symm; exact List.getElem?_eq_none (by omega)
+    · rw [if_neg hc]
+
+/-- **C10, helpers.**  Every helper of the bounded string writes inside the destination (it never
+answers `none`), keeps the capacity, and leaves a prefix of the unbounded result — for every
+length, capacity and argument. -/
+theorem helpers_in_bounds (p : PF) (full : Bytes) (h : Agrees p full) :
+    (∀ src, ∃ p', PF.concat p src = some p' ∧ p'.cap = p.cap ∧ Agrees p' (full ++ src)) ∧
+    (∀ c n, ∃ p', PF.pad p c n = some p' ∧ p'.cap = p.cap ∧ Agrees p' (full ++ List.replicate n c)) ∧
+    (∀ c, ∃ p', PF.push p c = some p' ∧ p'.cap = p.cap ∧ Agrees p' (full ++ [c])) ∧
+    (∀ i c n, i ≤ full.length → ∃ p', PF.insertPad p i c n = some p' ∧ p'.cap = p.cap ∧
+      Agrees p' (full.take i ++ List.replicate n c ++ full.drop i)) ∧
+    (∀ base upper prec x, ∃ p', PF.writeUInt p base upper prec x = some p' ∧ p'.cap = p.cap ∧
+      Agrees p' (full ++ List.replicate (PF.zeroFill prec (PF.digits base upper x).length) 48 ++ PF.digits base upper x)) ∧
+    (∀ prec x, ∃ p', PF.writeOctAlt p prec x = some p' ∧ p'.cap = p.cap ∧
+      Agrees p' (full ++ [48] ++ List.replicate (PF.zeroFill prec (1 + (PF.digits 8 false x).length)) 48 ++ PF.digits 8 false x)) :=
+  ⟨fun src => PF.concat_ok p full src h, fun c n => PF.pad_ok p full c n h, fun c => PF.push_ok p full c h,
+   fun i c n hi => PF.insertPad_ok p full i c n h hi, fun base upper prec x => PF.writeUInt_ok p full base upper prec x h,
+   fun prec x => PF.writeOctAlt_ok p full prec x h⟩
+
+/-- **C10, floating point.**  Whatever digits the converter found — for *every* plan of output steps
+(`pf_push_char`, `pf_pad`, `pf_concat`, `pf_append_utoa / _nine_digits / _c_digits / _d_digits`) —
+writing them into the room that is left stays inside the destination and leaves a prefix of the
+unbounded text. -/
+theorem float_emit_in_bounds (p : PF) (full : Bytes) (plan : List PF.Emit) (h : Agrees p full) :
+    ∃ p', PF.writeFloat p plan = some p' ∧ p'.cap = p.cap ∧ Agrees p' (full ++ PF.planText plan) :=
+  PF.writeFloat_ok p full plan h
+
+/-- **C10, `pf_snprintf`.**  For every format and argument list whose text `out` is defined, and every
+limit `n` (0 included), on any destination of `n` bytes: no write leaves the destination, the value
+returned is the length of the complete output, and the bytes written are the first `min(|out|, n)`
+bytes of it; writing the terminator (only when it fits) does not change them. -/
+theorem bounded_prefix (fmt : Bytes) (args : List Arg) (out dest : Bytes)
+    (hg : genFormat (convText floatModelText) (fmt.length + 1) fmt args = some out) :
+    ∃ p, vsnprintf (fmt.length + 1) { data := dest, length := 0 } fmt args = some (some p) ∧
+      p.data.length = dest.length ∧ p.length = out.length ∧
+      p.data.take (min out.length dest.length) = out.take dest.length ∧
+      ∃ p', finish p = some p' ∧ p'.length = out.length ∧ p'.data.length = dest.length ∧
+        p'.data.take (min out.length dest.length) = out.take dest.length := by
+  have h0 : Agrees ({ data := dest, length := 0 } : PF) [] := ⟨rfl, fun i _ hi => by simp at hi⟩
+  obtain ⟨p, e, c, a⟩ := vsnprintf_ok (fmt.length + 1) _ [] out fmt args h0 hg
+  simp only [List.nil_append] at a
+  obtain ⟨l, t⟩ := agrees_take p out a
+  have hc : p.cap = dest.length := c
+  refine ⟨p, e, hc, l, by rw [← hc]; exact t, ?_⟩
+  unfold finish
+  split
+  · rename_i hlt
+    obtain ⟨d', e', l', g'⟩ := PF.wr_some p.data p.length [0] (Or.inr (by simp only [List.length_singleton, PF.cap] at *; omega))
+    have a' : Agrees ({ p with data := d' } : PF) out := by
+      refine ⟨a.1, fun i hi1 hi2 => ?_⟩
+      simp only [PF.cap, l'] at hi1
+      rw [g' i, if_neg (by rw [a.1]; omega)]; exact a.2 i hi1 hi2
+    obtain ⟨l2, t2⟩ := agrees_take _ out a'
+    have hc2 : ({ p with data := d' } : PF).cap = dest.length := by simp only [PF.cap, l']; exact hc
+    exact ⟨_, by simp [e'], l2, hc2, by rw [← hc2]; exact t2⟩
+  · exact ⟨p, rfl, l, hc, by rw [← hc]; exact t⟩
+
+/-! ## non-vacuity -/
+
+-- the hypothesis of `bounded_prefix` holds for an ordinary format: "[%05d|%-4s|%#x]" with 42, "ab", 255
+example : genFormat (convText floatModelText) 17
+    [91, 37, 48, 53, 100, 124, 37, 45, 52, 115, 124, 37, 35, 120, 93] [.int 42, .str [97, 98], .int 255] =
+    some [91, 48, 48, 48, 52, 50, 124, 97, 98, 32, 32, 124, 48, 120, 102, 102, 93] := by
+  simp [genFormat, splitLiteral, scanSpec, scanFlags, isDigit, scanNat, scanLen, resolve, argFits, convText, formatOne,
+    fmtSigned, fmtUnsigned, signedArg, unsignedArg, LenMod.bits, signBytes, precDigits, padField, natDigits, digitChar,
+    strArg, cstrlen, isFloatConv]
+
+-- a bounded run of the model itself: "%5d" of 42 into 3 bytes writes "   " and reports 5
+example : (vsnprintf 4 { data := [170, 170, 170], length := 0 } [37, 53, 100] [.int 42]).map (·.map fun p => (p.data, p.length)) =
+    some (some ([32, 32, 32], 5)) := by decide
+
+end Gpc.Printf
